@@ -468,7 +468,14 @@ func (e *Ev) callStatic(fn *types.Func, recv *Term, args []Term, n *ast.CallExpr
 		ce.allocPred = allocPred
 		ce.qvars = e.qvars
 		t := ce.evSpec(c.Text)
-		e.assumeQ(smtImp(smtAnd(append([]string{e.guardCond()}, reqs...)...), t.S))
+		fact := smtImp(smtAnd(append([]string{e.guardCond()}, reqs...)...), t.S)
+		e.assumeQ(fact)
+		if c.Name != "" && len(e.qvars) == 0 {
+			if e.u.invTag == nil {
+				e.u.invTag = map[string]string{}
+			}
+			e.u.invTag[fact] = "call#" + c.Name
+		}
 	}
 done:
 	// convert results back to caller mode
